@@ -24,6 +24,10 @@ inductive Region where
   | chunkData | chunkSig | trailerSig | trailerCksum | other
   deriving Repr, DecidableEq
 
+def Region.name : Region → String
+  | .chunkData => "chunk-data" | .chunkSig => "chunk-signature" | .trailerSig => "trailer-signature"
+  | .trailerCksum => "trailer-checksum" | .other => "other-byte"
+
 /-- position of the first CRLF-terminated line end: (line without CRLF, rest after CRLF) -/
 def cutCRLF : Bytes → Option (Bytes × Bytes)
   | [] => none
@@ -179,7 +183,7 @@ def judgeCase (_k : Nat) (lines : List String) : Verdict := Id.run do
         let region := match firstDiff baseBody r.body 0 with
           | some i => regionLoop (baseBody.length + 2) baseBody 0 i
           | none => Region.other
-        stats := addStats stats [(s!"mutant_{repr region}", 1)]
+        stats := addStats stats [(s!"mutant_{region.name}", 1)]
         let keyed := authOn && !anonymous     -- signatures can be verified only with the credentials
         let mustFail := match region with
           | .chunkData => (keyed && signedMode) || hasCksum
@@ -192,7 +196,7 @@ def judgeCase (_k : Nat) (lines : List String) : Verdict := Id.run do
           if !(failed && stored.isNone) then
             let sg :=
               if stored == some r.body then s!"C30.{who}-chunk-framing-stored-verbatim"
-              else s!"C30.{who}-mutated-{repr region}-accepted"
+              else s!"C30.{who}-mutated-{region.name}-accepted"
             vio := vio ++ [(sg, s!"{rc.label}:mode={rc.mode},status={rc.obs.status},stored={stored.map (·.length)}")]
         else
           stats := addStats stats [("mutants_undetectable_by_design", 1)]
